@@ -309,3 +309,15 @@ impl RenetServer {
         Ok(())
     }
 }
+
+/// Verification hooks (feature `verif`): access to the server-side connection object of a client.
+#[cfg(feature = "verif")]
+impl RenetServer {
+    pub fn verif_connection(&self, client_id: ClientId) -> Option<&RenetClient> {
+        self.connections.get(&client_id)
+    }
+
+    pub fn verif_connection_mut(&mut self, client_id: ClientId) -> Option<&mut RenetClient> {
+        self.connections.get_mut(&client_id)
+    }
+}
